@@ -79,7 +79,7 @@ def run(ctx, driver):
     from httpcore._models import include_request_headers
     rng = ctx.rng
     rec = propbase.Rec(ctx, ID)
-    n = 400 if ctx.quick else 6000
+    n = 400 if ctx.quick else 60000
     cases = [(gen_cfg(rng), gen_req(rng)) for _ in range(n)]
     lines = []
     for c, r in cases:
